@@ -56,15 +56,20 @@ func DateFromProto(proto *dtpb.Date) (Date, error) {
 		return Date{}, err
 	}
 	var l layout
+	// A date has no time zone: keep the civil components the proto's zone
+	// yields, down to its precision, anchored like a parsed Date literal.
+	year, month, day := t.Date()
 	switch proto.Precision {
 	case dtpb.Date_DAY:
 		l = dayLayout
 	case dtpb.Date_MONTH:
 		l = monthLayout
+		day = 1
 	case dtpb.Date_YEAR:
 		l = yearLayout
+		month, day = time.January, 1
 	}
-	return Date{t, l}, nil
+	return Date{time.Date(year, month, day, 0, 0, 0, 0, time.UTC), l}, nil
 }
 
 // ToProtoDate returns a proto Date based on a system Date.
